@@ -150,6 +150,12 @@ def simulate(
 
     # ensure sm is writeable
     sm = sm.copy()
+    if isinstance(init, statematrix.StateMatrix):
+        # the partial derivatives carried by the initial state matrix continue with it
+        for name in ("order1", "order2"):
+            if hasattr(init, name):
+                partials = getattr(init, name)
+                setattr(sm, name, {key: partials[key].copy() for key in partials})
 
     # run simulation
     values, times = simulate_simple(
